@@ -50,6 +50,8 @@ PROFILES = {
 
 
 def specs_for(prop, seed, n, tier):
+    if prop in SPEC_BUILDERS:
+        return SPEC_BUILDERS[prop](seed, n, tier)
     plist = PROFILES[prop]
     tot = sum(w for w, _ in plist)
     specs = []
@@ -60,12 +62,33 @@ def specs_for(prop, seed, n, tier):
             if x < w:
                 break
             x -= w
-        specs.append({"root": "%s/%s/%s/%d" % (seed, prop, tier, i), "profile": prof})
+        sp = {"root": "%s/%s/%s/%d" % (seed, prop, tier, i), "profile": prof}
+        if prop in DRIVERS:
+            sp["driver"] = DRIVERS[prop]
+            sp["timeout"] = run_timeout(prop)
+        specs.append(sp)
     return specs
 
 
+SPEC_BUILDERS = {}
+
+
 # ---------------------------------------------------------------------------
-DRIVERS = {}  # property -> driver module name (twin / paired / crash-restart checks)
+DRIVERS = {"C11": "c11", "C15": "c15"}  # property -> driver module name (twin / paired / crash-restart checks)
+MF_SEEDED = [k for k in MF if k != "moasha"]
+PROFILES.update({
+    "C11": [(6, _p(world="mem", kinds=MF_SEEDED, p_fault_free=0.5, p_latency=0.5, p_nodelay_false=0.03)),
+            (2, _p(world="sim", kinds=[k for k in MF_SEEDED if k != "pbt"], p_fault_free=0.6, fault_kinds=["crash"], sim_fixed_seed=True,
+                   p_nodelay_false=0.03)),
+            (1, _p(world="mem", kinds=["fifo_bo", "hb_stopping_bo", "hb_promotion_bo", "hb_hypertune", "sync_hb_bo"], max_trials=8,
+                   p_fault_free=0.7, fault_kinds=["crash"], p_nodelay_false=0.0)), ],
+    "C15": [(6, _p(world="mem", kinds=[k for k in MF if k != "fifo_grid"] + ["hb_stopping", "hb_promotion"], p_fault_free=0.6, p_ties=0.0,
+                   fault_kinds=["crash"], p_nodelay_false=0.03, stop_fields=["max_num_trials_started", "max_num_trials_finished",
+                                                                            "max_num_trials_completed", "max_num_evaluations", "max_wallclock_time"])),
+            (2, _p(world="sim", kinds=[k for k in MF_SIM if k != "fifo_grid"], p_fault_free=0.7, fault_kinds=["crash"], p_ties=0.0,
+                   sim_fixed_seed=True, p_nodelay_false=0.03)), ],
+})
+FRESH = {"C11": {"hashseed": "5"}}
 
 BUDGET = {
     # property: (quick_n, quick_budget_s, thorough_n, thorough_budget_s)
@@ -80,7 +103,7 @@ def budget(prop, tier):
 
 
 def run_timeout(prop):
-    return 200.0 if prop in ("C14",) else 60.0
+    return 200.0 if prop in ("C14", "C11", "C16") else 90.0 if prop in ("C15",) else 60.0
 
 
 def level(prop):
